@@ -97,7 +97,7 @@ class Session:
 
     def contents(self):
         return decode_bytes(read_file(self.path), self.kw.get("encoding"), {k: v for k, v in self.kw.items()
-                                                                            if k in ("delimiter", "quotechar", "quoting")})
+                                                                            if k in ("delimiter", "quotechar", "quoting", "escapechar", "doublequote", "skipinitialspace", "strict", "dialect")})
 
     def finish(self):
         self.h.disarm()
@@ -117,7 +117,7 @@ def logical_contents(tf, workdir, ops, auto=True, storage_kwargs=None):
 
 
 def csv_only(kw):
-    return {k: v for k, v in (kw or {}).items() if k in ("delimiter", "quotechar", "quoting")}
+    return {k: v for k, v in (kw or {}).items() if k in ("delimiter", "quotechar", "quoting", "escapechar", "doublequote", "skipinitialspace", "strict", "dialect")}
 
 
 def recorded_run(tf, workdir, hist, op, auto=True, storage_kwargs=None, other_fs=False, mode=None):
